@@ -177,6 +177,28 @@ Proof.
   split; [intros X; specialize (E X); lia|]. destruct F as [F|F]; [left; exact F|right; lia].
 Qed.
 
+(* ... and every epoch issued by such a call - a call issues up to MaxEpochsPerUpdate/2 epochs, which may lie on both
+   sides of a reward tick (epoch 30, 60, ...) - is minted the emission of ITS OWN epoch, which is within that epoch's
+   network emission: the issued epochs are those of C11_liquidity_cursor and each (epoch, (znn, qsr)) satisfies
+   LiquidityRewardForEpoch epoch = (znn, qsr) <= (NetworkZnnRewardPerEpoch epoch, NetworkQsrRewardPerEpoch epoch) *)
+Theorem C11_liquidity_issues_the_emission_of_its_epoch : forall fuel g dur now last es l',
+  cursor_ok g dur last -> now < two62 ->
+  liquidity_loop fuel g dur now last 0 = Some (es, l') ->
+  exists ms, liquidity_issue fuel g dur now last 0 = Some (Done (ms, l')) /\ map fst ms = es /\
+    Forall (fun m => 0 <= fst m < two64 /\ LiquidityRewardForEpoch (fst m) = Ok (snd m) /\
+              exists z q, NetworkZnnRewardPerEpoch (fst m) = Ok z /\ NetworkQsrRewardPerEpoch (fst m) = Ok q /\
+                0 <= fst (snd m) <= z /\ 0 <= snd (snd m) <= q) ms.
+Proof. intros fuel g dur now last es l'. exact (liquidity_issue_spec fuel g dur now last 0 es l'). Qed.
+
+(* non-vacuity: 1 h epochs, cursor at 27, epochs 28..31 due: the call issues 28, 29 at the first tick's rate and
+   30, 31 at the second tick's *)
+Example C11_liquidity_issue_example :
+  cursor_ok 1000000000 3600 27 /\
+  liquidity_issue 20 1000000000 3600 (1000000000 + 32 * 3600 + 3600) 27 0 =
+    Some (Done ([(28, (187200000000, 500000000000)); (29, (187200000000, 500000000000));
+                 (30, (112320000000, 500000000000)); (31, (112320000000, 500000000000))], 31)).
+Proof. split; [unfold cursor_ok, two62, two63; vm_compute; repeat split; discriminate | vm_compute; reflexivity]. Qed.
+
 (* over any history of liquidity Updates: every epoch up to the cursor is rewarded exactly once, in order *)
 Theorem C11_liquidity_once_per_epoch : forall fuel g dur nows last es l',
   cursor_ok g dur last -> Forall (fun now => now < two62) nows ->
